@@ -292,7 +292,7 @@ func TestC12_AccessPaths(t *testing.T) {
 
 func TestC12_FixedShapes(t *testing.T) {
 	c := harness.New(t, "C12", "fixed-shapes",
-		"hand-written shapes: every integer width at its extremes (within int64), float32 rounding, unexported fields (must not be reachable by any spelling), embedded struct (reachable as a field), nil at every pointer/interface position of a struct, pointer to pointer, pointer to struct inside slice inside map, one pointer shared by several slice elements / struct fields / map values, several pointers to zero-size values, nil slice and nil map, first-letter fallback for struct fields only. Non-trivial: all. Distinct by construction.")
+		"hand-written shapes: every integer width at its extremes (within int64), float32 rounding, unexported fields (must not be reachable by any spelling), embedded struct (reachable as a field), nil at every pointer/interface position of a struct, pointer to pointer, pointer to struct inside slice inside map, one pointer shared by several slice elements / struct fields / map values, several pointers to zero-size values, an embedded pointer to a struct (nil and set), two different struct types with the same printed name rendered one after the other, nil slice and nil map, first-letter fallback for struct fields only. Non-trivial: all. Distinct by construction.")
 	defer c.Finish()
 	type shape struct {
 		name string
@@ -323,7 +323,19 @@ func TestC12_FixedShapes(t *testing.T) {
 	sharedMap := spec.Map(spec.T(spec.TAny), []string{"x", "y"}, []*spec.Value{spec.Any(author), spec.Any(author)})
 	empty := spec.Ptr(&spec.Value{T: spec.StructOf()})
 	empties := spec.Slice(empty.T, empty, spec.Ptr(&spec.Value{T: spec.StructOf()}), spec.Ptr(&spec.Value{T: spec.StructOf()}))
+	innerV := &spec.Value{T: spec.FixedType("Inner"), Items: []*spec.Value{spec.String("ti"), spec.IntOf(spec.TInt, 2)}}
+	embNil := &spec.Value{T: spec.FixedType("EmbedsPtr"), Items: []*spec.Value{spec.NilPtr(spec.FixedType("Inner")), spec.String("lab")}}
+	embSet := &spec.Value{T: spec.FixedType("EmbedsPtr"), Items: []*spec.Value{spec.Ptr(innerV), spec.String("lab")}}
+	// two different struct types whose printed name is the same (declared in two functions)
+	personA := &spec.Value{T: spec.FixedType("PersonA"), Items: []*spec.Value{spec.String("Ann"), spec.IntOf(spec.TInt, 31)}}
+	personB := &spec.Value{T: spec.FixedType("PersonB"), Items: []*spec.Value{spec.IntOf(spec.TInt, 44), spec.String("Bob"), spec.String("bob@x")}}
 	shapes := []shape{
+		{"embedded-nil-pointer-sibling", embNil, "d.label", asStr("lab")}, {"embedded-nil-pointer-itself", embNil, "d.Inner", asNil},
+		{"embedded-nil-pointer-in-slice", spec.Slice(embNil.T, embNil, embSet), "d[1].inner.title", asStr("ti")}, {"embedded-pointer-field", embSet, "d.Inner.n", asInt(2)},
+		{"same-named-type-first", personA, "d.name", asStr("Ann")}, {"same-named-type-first-age", personA, `d["age"]`, asInt(31)},
+		{"same-named-type-second", personB, "d.name", asStr("Bob")}, {"same-named-type-second-age", personB, "d.Age", asInt(44)},
+		{"same-named-type-second-extra-field", personB, "d.email", asStr("bob@x")}, {"same-named-type-first-again", personA, "d.Name", asStr("Ann")},
+		{"same-named-types-together", spec.Slice(spec.T(spec.TAny), spec.Any(personB), spec.Any(personA)), "d[1].age", asInt(31)},
 		{"shared-pointer-first-use", posts, "d[0].author.name", asStr("Ann")}, {"shared-pointer-second-use", posts, "d[1].author.name", asStr("Ann")},
 		{"shared-pointer-third-use-index", posts, `d[2]["Author"].age`, asInt(33)}, {"shared-pointer-sibling-field", posts, "d[1].title", asStr("second")},
 		{"shared-pointer-two-fields", twice, "d.b", asInt(77)}, {"shared-pointer-field-then-slice", twice, "d.l[1]", asInt(77)},
